@@ -341,6 +341,33 @@ def run_scheduled(chk, prop, tier):
 # --------------------------------------------------------------------------------------------
 # WakerTracker replay (C04)
 # --------------------------------------------------------------------------------------------
+def run_apalache_inductive(chk):
+    """Unbounded safety of the waker protocol (S1) by an inductive invariant, discharged with
+    Apalache (no bound on calls, counts, capacity 1..64; 3 requests)."""
+    import subprocess, time, re
+    d = os.path.join(SPECD, "apalache")
+    out = os.path.join(chk.dir, "apalache-out")
+    steps = [("Init => IndInv", ["--init=Init", "--inv=IndInv", "--length=0"]),
+             ("IndInv /\\ Next => IndInv'", ["--init=IndInit", "--inv=IndInv", "--length=1"])]
+    ok = 0
+    t0 = time.time()
+    for name, args in steps:
+        cmd = ["apalache-mc", "check", "--cinit=ConstInit", f"--out-dir={out}"] + args + ["WakerTrackerInd.tla"]
+        try:
+            p = subprocess.run(cmd, cwd=d, stdout=subprocess.PIPE, stderr=subprocess.STDOUT, text=True, timeout=900)
+        except subprocess.TimeoutExpired:
+            raise vlib.ToolError("apalache timed out on WakerTrackerInd (" + name + ")")
+        if "The outcome is: NoError" not in p.stdout:
+            sys_out = p.stdout[-2000:]
+            print(sys_out)
+            raise vlib.ToolError("apalache could not discharge '" + name + "' for WakerTrackerInd.tla (the model, not the code)")
+        ok += 1
+    chk.extra["apalache_inductive_invariant"] = {"module": "spec/queue/apalache/WakerTrackerInd.tla", "obligations": len(steps),
+                                                 "discharged": ok, "wall_s": round(time.time() - t0, 1),
+                                                 "scope": "S1 for 3 requests, any capacity in 1..64, any count, unbounded number of calls"}
+    log(f"[apalache] WakerTrackerInd: {ok}/{len(steps)} obligations discharged in {time.time()-t0:.1f}s")
+
+
 def run_wakertracker(chk, tier):
     cfg = "MC_wt_quick.cfg" if tier == "quick" else "MC_wt.cfg"
     r = vlib.model_check(SPECD, "WakerTracker", cfg, timeout=1800)
@@ -482,6 +509,8 @@ def run(prop, tier):
     # 4. the waker protocol, stepped through the real WakerTracker
     if prop == "C04":
         run_wakertracker(chk, tier)
+        if not vlib.SKIP_MC:
+            run_apalache_inductive(chk)
     return chk.finish()
 
 
